@@ -21,6 +21,61 @@ def probs_of(r):
     return r.out[3] if r.op == "solve" else r.out[0]
 
 
+def residual_problem(g, p, can, thr):
+    for s in can:
+        if s in g["final_states"] or not g["transition_list"][s]:
+            continue
+        row, k = g["transition_list"][s], g["players"][s]
+        if k == PR:
+            nxt = 0
+            for w, d in row:
+                nxt += p[d] * w
+        elif k == P1:
+            nxt = max([0] + [p[d] for _, d in row])
+        else:
+            nxt = min([1] + [p[d] for _, d in row])
+        if not (-1e-9 <= nxt - p[s] <= thr * (1 + 1e-6) + 1e-15):
+            return ("state %d: one more Bellman step gives %r, reported %r: the residual %g is outside [0, %g] "
+                    "(the loop stopped before its own stopping rule was met)" % (s, nxt, p[s], nxt - p[s], thr))
+    return None
+
+
+def other_thresholds(ctx, games):
+    """the convergence tolerance is a parameter of Solver: with 1e-3, 1e-9 and 1e-12 the reachability loop must honour the
+    value it was given (final states 1, states without a path 0, values within [0,1] and never above the true value, residual
+    within [0, threshold])"""
+    pool = [gm for gm in games if gm[1]["style"] in ("stopping", "exact", "cyclic", "players", "corpus") and not gm[1].get("patient")]
+    ctx.rng.shuffle(pool)
+    pool = pool[:12 if ctx.quick else 150]
+    jobs, info = [], []
+    for g, m in pool:
+        for thr in (1e-3, 1e-9, 1e-12):
+            jobs.append(dict(op="reach", game=enc(g), prune=False, threshold=thr.hex()))
+            info.append((g, m, thr))
+    res = impl.run_cases(jobs, limit=20, tag="c01thr")
+    for (g, m, thr), x in zip(info, res):
+        ctx.evaluations += 1
+        ctx.count("threshold %g" % thr)
+        if "ok" not in x:
+            if "timeout" not in x:
+                ctx.violation("Solver(threshold=%g): %s" % (thr, x), dict(game=enc(g), game_repr=repr(g), prune=False, op="reach", threshold=thr))
+            continue
+        p = dec(x["ok"])[0]
+        can = sc.paths_to_final(g)
+        inp = dict(game=enc(g), game_repr=repr(g), prune=False, op="reach", threshold=thr)
+        bad = None
+        for s in range(len(p)):
+            if s in g["final_states"] and p[s] != 1:
+                bad = "final state %d reports %r, not 1" % (s, p[s])
+            elif s not in can and p[s] != 0:
+                bad = "state %d has no path to a final state but reports %r" % (s, p[s])
+            elif not (0 <= p[s] <= 1):
+                bad = "state %d reports %r outside [0,1]" % (s, p[s])
+        bad = bad or residual_problem(g, p, can, thr)
+        if bad:
+            ctx.violation("Solver(threshold=%g): %s" % (thr, bad), inp, probs=p)
+
+
 def check_values(ctx, recs):
     by_game = {}
     for r in recs:
@@ -38,22 +93,9 @@ def check_values(ctx, recs):
             if not (0 <= p[s] <= 1):
                 ctx.violation("state %d reports %r outside [0,1]" % (s, p[s]), r.inp(), probs=p)
         # the loop's own guarantee (theorem C01_numeric): on every iterated state the Bellman residual lies in [0, threshold]
-        for s in can:
-            if s in g["final_states"] or not g["transition_list"][s]:
-                continue
-            row, k = g["transition_list"][s], g["players"][s]
-            if k == PR:
-                nxt = 0
-                for w, d in row:
-                    nxt += p[d] * w
-            elif k == P1:
-                nxt = max([0] + [p[d] for _, d in row])
-            else:
-                nxt = min([1] + [p[d] for _, d in row])
-            if not (-1e-9 <= nxt - p[s] <= sc.THR * (1 + 1e-6) + 1e-12):
-                ctx.violation("state %d: one more Bellman step gives %r, reported %r: the residual %g is outside [0, 1e-6] "
-                              "(the loop stopped before its own stopping rule was met)" % (s, nxt, p[s], nxt - p[s]), r.inp(), probs=p)
-                break
+        bad = residual_problem(g, p, can, sc.THR)
+        if bad:
+            ctx.violation(bad, r.inp(), probs=p)
         key = sc.game_key(g)
         if key in by_game and by_game[key] != p:
             ctx.violation("probabilities differ between pruning modes", r.inp(), probs=p, other=by_game[key])
@@ -210,7 +252,9 @@ def run(ctx):
     sc.padding_check(ctx, recs, ("probs",), 40 if ctx.quick else 400, "c01")
     sc.loglevel_check(ctx, recs, ("probs",), 25 if ctx.quick else 250, "c01")
     sc.resolve_check(ctx, recs, ("probs",), 30 if ctx.quick else 300, "c01")
+    sc.late_edit_check(ctx, recs, ("probs",), 20 if ctx.quick else 200, "c01")
     check_values(ctx, recs)
+    other_thresholds(ctx, games)
     exact_vs_float(ctx, recs)
     float_trace_monotone(ctx, recs)
     same_object_modes(ctx, recs)
@@ -227,7 +271,10 @@ def replay(ctx, data):
     if v is None:
         return 1
     g = dec(v["game"])
-    res = impl.run_cases([dict(op=v.get("op", "solve"), game=v["game"], prune=v["prune"])])[0]
+    job = dict(op=v.get("op", "solve"), game=v["game"], prune=v["prune"])
+    if v.get("threshold"):
+        job["threshold"] = float(v["threshold"]).hex()
+    res = impl.run_cases([job])[0]
     print("implementation:", res)
     meta = dict(fr=[[Fr(p).limit_denominator(10**9) for p, _ in row] if g["players"][i] == PR else None
                     for i, row in enumerate(g["transition_list"])], style="replay")
